@@ -490,19 +490,27 @@ class NetworkService(ModelElement):
         link between them
         """
         assert(isinstance(ns, NetworkService))
-        # see if they peer
-        # two peered services are exactly one link apart: service - port - link - port - service.
-        # Follow 'connects' only: two services of one node are as close over their 'has' edges, and so
-        # are the services of two components of one node (service - component - node - component - service)
-        sp = self.topo.graph_model.get_nodes_on_shortest_path(node_a=self.node_id, node_z=ns.node_id,
-                                                              rel=ABCPropertyGraph.REL_CONNECTS)
-        if len(sp) != 5:
+        # see if they peer: peer() puts a ServicePort on either service and a link between the two.
+        # (The distance between the services does not tell: two services of one node, the services of two
+        # components of one node, or a service and an interface connected to it are as close or closer)
+        sp = None
+        gm = self.topo.graph_model
+        for my_port in gm.get_all_ns_or_link_connection_points(link_id=self.node_id):
+            _, my_props = gm.get_node_properties(node_id=my_port)
+            if my_props.get(ABCPropertyGraph.PROP_TYPE) != str(InterfaceType.ServicePort):
+                continue
+            for their_port in gm.find_peer_connection_points(node_id=my_port) or []:
+                _, their_props = gm.get_node_properties(node_id=their_port)
+                _, their_owner = gm.get_parent(node_id=their_port, rel=ABCPropertyGraph.REL_CONNECTS,
+                                               parent=ABCPropertyGraph.CLASS_NetworkService)
+                if their_props.get(ABCPropertyGraph.PROP_TYPE) == str(InterfaceType.ServicePort) and \
+                        their_owner == ns.node_id:
+                    sp = [self.node_id, my_port, None, their_port, ns.node_id]
+                    break
+            if sp is not None:
+                break
+        if sp is None:
             raise TopologyException(f"Network services {self.name} and {ns.name} do not peer!")
-        # a node interface connected to a service is as far from its own service: peer() puts a ServicePort on either side
-        for cp_id in (sp[1], sp[-2]):
-            _, cp_props = self.topo.graph_model.get_node_properties(node_id=cp_id)
-            if cp_props.get(ABCPropertyGraph.PROP_TYPE) != str(InterfaceType.ServicePort):
-                raise TopologyException(f"Network services {self.name} and {ns.name} do not peer!")
         # remove ConnectionPoints and link between them
         self.topo.graph_model.remove_cp_and_links(node_id=sp[1])
         ns.topo.graph_model.remove_cp_and_links(node_id=sp[-2])
